@@ -269,7 +269,8 @@ import c18 as _c18
 
 @prop('C18',
       rule="fault enumeration: for each workload (PLAIN+minstd_rand ~150 B checkpoint, PLAIN+mt19937 ~7-20 KiB, VEGAS 128 bins x 3 dims with a 1-d "
-           "and a 2-d distribution > 100 KiB, multi-channel 40 channels) a record run under the LD_PRELOAD interposer lists every file-system "
+           "and a 2-d distribution > 100 KiB, multi-channel 40 channels, mpi_plain with the MPI callback on two thread ranks; checkpoint file names chk.tmp, chkpt, "
+           "chk.txt, chk.v2.dat, mpi.chk) a record run under the LD_PRELOAD interposer lists every file-system "
            "event (fopen, write, writev, fclose, rename, unlink) on the checkpoint directory per iteration; then the application is started "
            "from scratch once per crash point: SIGKILL before and after EVERY event, and inside every write after a byte prefix (all prefixes "
            "for writes <= 4 KiB in the thorough tier; otherwise 0,1,n/2,n-1, every 4 KiB and 8191-byte boundary +-1 and 12..64 seeded offsets). "
